@@ -149,11 +149,13 @@ DFS_QUICK = [
     cfg_line(1, [], [[0], [0]], sig=[(1, "l")]),      # sender 1 is a signal handler interrupting the loop thread
     cfg_line(1, [0], [[0], [0]], sig=[(1, 0)]),       # ... interrupting sender 0
     cfg_line(2, [0], [[0, 1]]),
+    cfg_line(2, [0, 1], [[0], [1]]),                  # callbacks closing themselves and the other handle, in any order, during the scan
+    cfg_line(2, [0, 1], [[0]]),                       # ... while the other handle never got a send
 ]
 DFS_THOROUGH = [
     cfg_line(1, [0], [[0, 0], [0]]),
     cfg_line(2, [1], [[0, 1], [1, 0]]),
-    cfg_line(2, [0, 1], [[0], [1]]),
+    cfg_line(3, [0, 1, 2], [[1]]),
     cfg_line(1, [0], [[0], [0], [0]]),
     cfg_line(2, [], [[0, 1], [1, 0]]),
     cfg_line(2, [0], [[0], [1]], sig=[(1, "l")]),
@@ -361,6 +363,8 @@ def run(ctx):
         (cfg_line(1, [0], [[0]]), "s0 s0 s0 c0 l s0 s0 l f"),                         # close spins for a sender in the critical section
         (cfg_line(2, [0], [[0, 1]]), "s0 s0 s0 s0 s0 s0 l l l c0 l l l s0 s0 s0 s0 s0 s0 l l l l f"),  # close inside a callback
     ]
+    corpus.append((cfg_line(2, [0, 1], [[0]]), "s0 s0 s0 s0 s0 s0 l l l c0 l l c1 l l l l f"))   # h0's callback closes itself, then its neighbour
+    corpus.append((cfg_line(1, [0], [[0], [0]]), "s0 s0 s0 s0 s1 s1 l l l l s1 s1 s1 s1 s1 c0 l s0 s0 l"))  # two overlapping senders, close while one is parked at the eventfd write
     for c, sc in corpus:
         batch(f"{c}\nsched {sc}\n", "corpus")
 
